@@ -365,6 +365,9 @@ class _IA32(ABI):
             stack_adjustment if knows_stack_adjustment else None,
         )
 
+    def default_dwarf_eh_return_column(self) -> int:
+        return 8
+
     def all_registers(self) -> List[Register]:
         return [
             Register(
@@ -483,6 +486,9 @@ class _X86_64(ABI):
             reversed(epilogue),
             stack_adjustment if knows_stack_adjustment else None,
         )
+
+    def default_dwarf_eh_return_column(self) -> int:
+        return 16
 
     def all_registers(self) -> List[Register]:
         return [
